@@ -95,6 +95,12 @@ def cli_opts(cfg):
         o += ["-r", "%s~%s" % (fmt_dur(a - first) if a else "", fmt_dur(b - first) if b else "")]
     elif a or b:
         o += ["-r", "%s~%s" % (fmt_ts(a) if a else "", fmt_ts(b) if b else "")]
+    if cfg.get("erange"):
+        # each end of the range on its own: an elapsed time (offset with a unit) or a timestamp; 0 = end not given
+        a, ea, b_, eb = cfg["erange"]
+        o += ["-r", "%s~%s" % ((fmt_dur(a) if ea else fmt_ts(a)) if a else "", (fmt_dur(b_) if eb else fmt_ts(b_)) if b_ else "")]
+    if cfg.get("tid_sel") is not None:
+        o += ["--tid", ",".join(str(TID + i) for i in cfg["tid_sel"])]
     for k, v in sorted(cfg.get("loc", {}).items()):
         o += ["-L", src_file(k) + ("" if v else "@hide")]
     if cfg.get("zsize"):
@@ -671,6 +677,8 @@ def cfg_json(cfg):
             j[key] = {str(k): v for k, v in j[key].items()}
     if "range" in j:
         j["range"] = list(j["range"])
+    if "erange" in j:
+        j["erange"] = list(j["erange"])
     return j
 
 
@@ -755,6 +763,20 @@ def gen_zcase(rng, kind):
     if not cfg["zsize"] and not cfg["ztrig"]:
         cfg["zsize"] = 70
     return cfg, f, ["size:" + kind, "size:-Z" if cfg["zsize"] else "size:trigger-only"] + (["size:size="] if cfg["ztrig"] else [])
+
+
+def corpus6():
+    """fixed defect kept as ordinary cases: the origin of the elapsed time was taken from the tasks --tid leaves out
+    only (or, without any, from the first task of the info file) instead of the oldest record of the recording"""
+    def task(st):
+        return [C(0, st, st + 200, [C(1, st + 10, st + 60, [C(2, st + 20, st + 30)]), C(3, st + 70, st + 150, [C(2, st + 80, st + 100)])])]
+    return [("corpus:elapsed-origin-middle-task-excluded", {"trig": {}, "erange": (75, True, 0, False), "tid_sel": [0, 2]},
+             [task(1000), task(1040), task(1100)], ["corpus:elapsed-origin-middle-task-excluded", "tid-range:elapsed"]),
+            ("corpus:elapsed-origin-first-task-not-oldest", {"trig": {}, "erange": (75, True, 230, True), "tid_sel": None},
+             [task(1040), task(1000), task(1100)], ["corpus:elapsed-origin-first-task-not-oldest", "tid-range:elapsed"]),
+            ("corpus:elapsed-origin-owner-excluded", {"trig": {}, "erange": (120, True, 260, True), "tid_sel": [1, 2]},
+             [task(1000), task(1040), task(1100)], ["corpus:elapsed-origin-owner-excluded", "tid-range:elapsed",
+                                                    "tid-range:origin-owner-excluded"])]
 
 
 def corpus5():
@@ -1073,6 +1095,7 @@ def evaluate3(ctx, cases, name="mcases"):
     defs = "Definition mcases : list mcase := [\n%s\n].\n" % ";\n".join(mcase_term(c) for c in cases)
     evs = [("mm_" + e, "bad_indices magree_%s mcases 0" % e) for e in MEVALS]
     evs += [("v_agree", "bad_indices mok_agree mcases 0"), ("v_spec", "bad_indices mok_spec mcases 0"),
+            ("v_range", "bad_indices mok_range mcases 0"),
             ("in_spec", "bad_indices (fun k => negb (mspec_class k)) mcases 0")]
     res = coq.run_cases(ctx, name, PRE, defs, evs)
     if res is None:
@@ -1096,13 +1119,117 @@ def verdict3(ctx, cases, res):
         ctx.violation("C07 violated (several tasks): the analysis commands disagree on the visible calls for options %s"
                       % " ".join(cli_opts(cases[i]["cfg"])),
                       {"line": 3, "check": "mok_agree", "mcase": mcase_json(cases[i]), "outputs": cases[i]["out"]}, True)
+    for i in res.get("v_range", [])[:3]:
+        ctx.violation("C07 violated (several tasks): -r does not select exactly the records of every task inside the "
+                      "time range: %s" % " ".join(cli_opts(cases[i]["cfg"])),
+                      {"line": 3, "check": "mok_range", "mcase": mcase_json(cases[i]), "outputs": cases[i]["out"]}, True)
     mm = {e: res["mm_" + e] for e in MEVALS if res["mm_" + e]}
-    if mm and not res["v_spec"] and not res["v_agree"]:
+    if mm and not res["v_spec"] and not res["v_agree"] and not res.get("v_range"):
         e, idx = sorted(mm.items())[0]
         ctx.violation("model and implementation disagree for `%s` with several tasks on %d case(s) (%s)"
                       % (e, len(idx), ", ".join("%s:%d" % (k, len(v)) for k, v in sorted(mm.items()))),
                       {"line": 3, "correspondence": "C07.Model multi-task driver for %s vs the real command" % e,
                        "mcase": mcase_json(cases[idx[0]]), "outputs": cases[idx[0]]["out"]}, False)
+    ctx.extra["disagreements_checked"] = ctx.extra.get("disagreements_checked", 0) + sum(len(v) for v in mm.values())
+
+
+# ---------------------------------------------------------------- line 6: --tid with (elapsed) time ranges
+KINDS_T = ["plain", "plain", "plain", "depth", "filter", "notrace"]
+
+
+def gen_tcase(rng, kind):
+    """2-4 tasks that start at different times (any of them may own the oldest record of the recording), --tid with a
+    subset of them, -r whose ends are elapsed times or timestamps"""
+    cfg, f, tags = gen_case(rng, kind)
+    cfg = dict(cfg)
+    cfg.pop("range", None)
+    cfg.pop("range_first", None)
+    cfg.pop("threshold", None)
+    ntask = rng.choice([2, 3, 3, 4])
+    # the forest the options were made for (it starts near 1000) is one of the tasks, at any position
+    starts = rng.sample([880, 940, 1060, 1150, 1250], ntask - 1)
+    fs = []
+    for st in starts:
+        g = forest.gen_shape(rng, NFUN, rng.choice([3, 6, 10]), rng.choice([2, 3, 4]))
+        forest.assign_times(rng, g, t0=st, durs=(1, 2, 3, 9, 10, 11, 99, 100, 101, 200))
+        fs.append(g)
+    fs.insert(rng.randrange(ntask), f)
+    firsts = [min(c.t0 for c in fcalls(g)) for g in fs]
+    origin = min(firsts)
+    owner = firsts.index(origin)
+    times = sorted(set(t for g in fs for c in fcalls(g) for t in (c.t0, c.t1)))
+    mode = rng.choice(["owner-out", "owner-out", "middle-out", "all", "any"])
+    idx = list(range(ntask))
+    if mode == "owner-out":
+        sel = [i for i in idx if i != owner and rng.random() < 0.7] or [rng.choice([i for i in idx if i != owner])]
+    elif mode == "middle-out":
+        out = rng.choice([i for i in idx if i != owner])
+        sel = [i for i in idx if i != out]
+    elif mode == "all":
+        sel = None                          # no --tid: the order of the tasks alone must not move the origin
+    else:
+        sel = sorted(rng.sample(idx, rng.randint(1, ntask)))
+    later = [t for t in times if t > origin]
+    a = rng.choice([0] + later[:max(1, len(later) * 2 // 3)] * 2)
+    b_ = rng.choice([0] + [t for t in later if t >= a] * 2) if a else rng.choice(later)
+    ea = bool(a) and rng.random() < 0.75
+    eb = bool(b_) and rng.random() < 0.75
+    cfg["erange"] = (a - origin if ea else a, ea, b_ - origin if eb else b_, eb)
+    cfg["tid_sel"] = sel
+    tags = ["tid-range:" + kind, "tid-range:" + mode, "tasks=%d" % ntask]
+    if ea or eb:
+        tags.append("tid-range:elapsed")
+    if sel is not None and owner not in sel and (ea or eb):
+        tags.append("tid-range:origin-owner-excluded")
+    if owner != 0:
+        tags.append("tid-range:first-task-not-oldest")
+    return cfg, fs, tags
+
+
+def tcase_term(c):
+    cfg = c["cfg"]
+    a, ea, b_, eb = cfg["erange"]
+    sel = cfg["tid_sel"] if cfg.get("tid_sel") is not None else list(range(len(c["forests"])))
+    base = dict(cfg)
+    return ("{| t_case := %s;\n   t_range := {| e_start := %d%%N; e_start_el := %s; e_stop := %d%%N; e_stop_el := %s |};\n"
+            "   t_sel := [%s] |}") % (mcase_term({"cfg": base, "forests": c["forests"], "out": c["out"]}), a, b(ea), b_, b(eb),
+                                   "; ".join("%d%%nat" % i for i in sel))
+
+
+def evaluate6(ctx, cases, name="tcases"):
+    defs = "Definition tcases : list tcase := [\n%s\n].\nDefinition rcases := map t_resolved tcases.\n" % ";\n".join(
+        tcase_term(c) for c in cases)
+    evs = [("mm_" + e, "bad_indices magree_%s rcases 0" % e) for e in MEVALS]
+    evs += [("v_agree", "bad_indices mok_agree rcases 0"), ("v_range", "bad_indices mok_range rcases 0"),
+            ("in_range", "bad_indices (fun k => negb (mrange_only k)) rcases 0"),
+            ("owner_out", "bad_indices (fun k => negb (t_origin_excluded k)) tcases 0")]
+    res = coq.run_cases(ctx, name, PRE, defs, evs)
+    if res is None:
+        return None
+    return {k: coq.parse_nat_list(v) for k, v in res.items()}
+
+
+def verdict6(ctx, cases, res):
+    if res is None:
+        return
+    for i in res["v_range"][:3]:
+        ctx.violation("C07 violated: with --tid and a time range a selected task does not show exactly its records inside "
+                      "the window (elapsed ends count from the oldest record of the whole recording): %s"
+                      % " ".join(cli_opts(cases[i]["cfg"])),
+                      {"line": 6, "check": "mok_range", "tcase": mcase_json(cases[i]), "outputs": cases[i]["out"]}, True)
+    for i in res["v_agree"][:3]:
+        ctx.violation("C07 violated: the analysis commands disagree under --tid and a time range: %s"
+                      % " ".join(cli_opts(cases[i]["cfg"])),
+                      {"line": 6, "check": "mok_agree", "tcase": mcase_json(cases[i]), "outputs": cases[i]["out"]}, True)
+    mm = {e: res["mm_" + e] for e in MEVALS if res["mm_" + e]}
+    if mm and not res["v_range"] and not res["v_agree"]:
+        e, idx = sorted(mm.items())[0]
+        ctx.violation("C07 violated: `%s` with --tid and a time range does not show what the selected tasks show under the "
+                      "window counted from the oldest record of the whole recording, on %d case(s) (%s); e.g. %s"
+                      % (e, len(idx), ", ".join("%s:%d" % (k, len(v)) for k, v in sorted(mm.items())),
+                         " ".join(cli_opts(cases[idx[0]]["cfg"]))),
+                      {"line": 6, "check": "magree_%s on t_resolved" % e, "tcase": mcase_json(cases[idx[0]]),
+                       "outputs": cases[idx[0]]["out"]}, True)
     ctx.extra["disagreements_checked"] = ctx.extra.get("disagreements_checked", 0) + sum(len(v) for v in mm.values())
 
 
@@ -1348,7 +1475,7 @@ def run(ctx):
     for key, what, cfg, f, differs in w1:
         todo.append(("witness:" + key, cfg, f, ["witness:" + key]))
     todo += corpus1()
-    n = ctx.n(6, 75)
+    n = ctx.n(5, 75)
     for kind in KINDS:
         for _ in range(n if kind != "plain" else 3):
             cfg, f, tags = gen_case(rng, kind)
@@ -1408,6 +1535,23 @@ def run(ctx):
                  + (["mt:in-spec-class"] if i in inside3 else []),
                  size=size, sample=mcase_json(c) if i == 1 else None)
     verdict3(ctx, mcases, res3)
+    # ---- line 6: --tid and elapsed time ranges, several tasks
+    todo = corpus6()
+    n6 = ctx.n(2, 20)
+    for kind in KINDS_T:
+        for _ in range(n6):
+            cfg, fs, tags = gen_tcase(rng, kind)
+            todo.append(("tid-range:" + kind, cfg, fs, tags))
+    tcases = line3(ctx, objdir, todo)
+    res6 = evaluate6(ctx, tcases)
+    inr6 = set(res6["in_range"]) if res6 else set()
+    for i, c in enumerate(tcases):
+        size = sum(x.size() for f in c["forests"] for x in f)
+        ctx.case(key=("tid", json.dumps(cfg_json(c["cfg"]), sort_keys=True),
+                      json.dumps([[x.to_json() for x in f] for f in c["forests"]])),
+                 nontrivial=len(c["out"]["chrome"]) != 2 * size, tags=c["tags"] + (["tid-range:in-range-class"] if i in inr6 else []),
+                 size=size, sample=mcase_json(c) if i == 2 else None)
+    verdict6(ctx, tcases, res6)
     # ---- line 5: size filter (no model of the code: documented semantics + agreement of the commands)
     todo = corpus5()
     n5 = ctx.n(1, 10)
@@ -1458,6 +1602,17 @@ def replay(ctx, obj):
             ctx.case(key="replay", sample=mcase_json(c))
             ctx.log("replayed (several tasks): options", " ".join(cli_opts(cfg)), "outputs", c["out"])
         verdict3(ctx, mcases, res3)
+        return
+    tj = obj.get("tcase")
+    if tj:
+        cfg = cfg_unjson(tj["cfg"])
+        fs = [[Call.from_json(x) for x in f] for f in tj["forests"]]
+        tcases = line3(ctx, objdir, [("replay", cfg, fs, [])])
+        res6 = evaluate6(ctx, tcases)
+        for c in tcases:
+            ctx.case(key="replay", sample=mcase_json(c))
+            ctx.log("replayed (--tid, time range): options", " ".join(cli_opts(cfg)), "outputs", c["out"])
+        verdict6(ctx, tcases, res6)
         return
     zj = obj.get("zcase")
     if zj:
